@@ -47,7 +47,8 @@ def rand_arg(rnd):
         s = rand_str(rnd)
         return s, {"t": "string", "v": s}, {"t": "string", "v": s}
     if k < 0.7:
-        i = rnd.choice([0, 1, -1, 42, -7, 2**31, -(2**40), 9007199254740993, 123456789])
+        i = rnd.choice([0, 1, -1, 42, -7, 2**31, -(2**40), 9007199254740993, 123456789, -9007199254740993, -1234567890123456789,
+                        2**62, -(2**62), 2**63 - 1, -(2**63) + 1])
         return i, {"t": "int64", "v": str(i)}, {"t": "int64", "v": str(i)}
     if k < 0.82:
         x = rnd.choice([0.5, -1.5, 2.25, 1e6, 123.456, 1e-5, 3.0, 1e21, 0.1])
